@@ -129,12 +129,17 @@ const (
 	tripleDES    cipherType = 3
 )
 
+// readMPInt and readString never size an allocation from a length field beyond the
+// bytes that are actually left in the input.
 func readMPInt(r *bytes.Reader) (*big.Int, error) {
 	l := make([]byte, 2)
 	if _, err := io.ReadFull(r, l); err != nil {
 		return nil, err
 	}
 	n := (int(binary.BigEndian.Uint16(l)) + 7) / 8
+	if n > r.Len() {
+		return nil, io.ErrUnexpectedEOF
+	}
 	b := make([]byte, n)
 	if _, err := io.ReadFull(r, b); err != nil {
 		return nil, err
@@ -148,6 +153,9 @@ func readString(r *bytes.Reader) (string, error) {
 		return "", err
 	}
 	n := binary.BigEndian.Uint32(l)
+	if uint64(n) > uint64(r.Len()) {
+		return "", io.ErrUnexpectedEOF
+	}
 	b := make([]byte, n)
 	if _, err := io.ReadFull(r, b); err != nil {
 		return "", err
